@@ -39,7 +39,7 @@ def one(rng):
     where = "params" if pos < len(pre) else "stream"
     recs = allrecs[:pos] + [ab] + (allrecs[pos:] if foreign or rng.random() < 0.3 else [])
     segs = [(0, 0, flat(recs))]
-    how = rng.choice(["all", "fill", "none", "past-eof", "own-status"])
+    how = rng.choice(["all", "fill", "none", "past-eof", "own-status", "propagate", "propagate"])
     if how == "all":
         h = [("readall",), ("ret", 0, 5)]
         h = [("readall",), ("fail", 2)] if rng.random() < 0.6 else h
@@ -49,6 +49,10 @@ def one(rng):
         h = [("ret", 0, rng.choice([0, 9]))]
     elif how == "past-eof":
         h = [("readall",), ("read", 8), ("read", 8), ("fail", 2)]
+    elif how == "propagate":
+        # `req.read(&mut buf).await?` until the stream is exhausted, then a regular exit: the abort reaches Token::run as the Err
+        # of the handler (the way real handlers see it)
+        h = [("read?", rng.choice([1, 16, 64]))] * rng.randrange(3, 9) + [("ret", 0, 5)]
     else:
         h = [("readall",), ("writeable",), ("write", STDOUT, [1, 2, 3]), ("ret", 0, 77)]
     scripts = [h]
@@ -72,7 +76,7 @@ def nontrivial(line, tags):
 
 
 def min_classes(tier):
-    return {"params": 150, "stream": 300, "foreign": 150, "follow1": 150, "follow2": 150, "past-eof": 100, "own-status": 100}
+    return {"params": 150, "stream": 300, "foreign": 150, "follow1": 150, "follow2": 150, "past-eof": 100, "own-status": 100, "propagate": 150}
 
 
 def oracle(line, impl_line):
@@ -125,6 +129,20 @@ def oracle(line, impl_line):
         return "input delivered before the abort is not a prefix of what the client sent"
     hops = C07.handler_ops(scripts[0])
     st = C07.expected_status(hops)
+    # what the handler observed: a read that failed with ConnectionAborted = the client's abort as the handler sees it
+    seen_abort = any((ev[0] in (1, 3) and ev[1] == 0 and ev[2] == 2) or (ev[0] == 2 and ev[1] == 2) or (ev[0] == 5 and ev[1] == 2)
+                     for ev, d in inv[0]["ops"])
+    for (ev, d), op in zip(inv[0]["ops"], hops):
+        if op[0] == "read?" and ev[0] == 1 and ev[1] == 0:
+            # the handler returned this error: the abort status for a client abort, otherwise the connection is torn down
+            st = (ABRT, 0) if ev[2] == 2 else None
+            break
+    if any(op[0] == "fail" and op[1] == 2 for op in hops) and not seen_abort and st == (ABRT, 0):
+        # the handler fabricated a ConnectionAborted error without having seen the abort: an Err tears the connection down
+        # (documented for Token::run); nothing is claimed about it here
+        return True
+    if st is None:
+        return True
     if len(ends) != 1:
         return "%d EndRequest records for the aborted request, expected exactly 1" % len(ends)
     body = ends[0][2]
